@@ -339,6 +339,14 @@ func idxBounded(c *core.Ctx, pk *packagesPackage, env *core.LenEnv, stack []ast.
 						if k := env.LenKey(be.Y); k != "" && k == contKey && be.Op == token.LSS && off <= 0 {
 							return true, "for-loop counter bounded by the container's length"
 						}
+						// i < Y where Y itself is a valid index of the container at the loop
+						if be.Op == token.LSS && off <= 0 && !assignedIn(pk, l.Body, obj) {
+							if _, isLit := ast.Unparen(be.Y).(*ast.BasicLit); !isLit {
+								if ok2, why2 := idxBounded(c, pk, env, stack[:i+1], cont, contKey, be.Y, false); ok2 {
+									return true, "for-loop counter below " + core.ExprStr(be.Y) + ", which is a valid index (" + why2 + ")"
+								}
+							}
+						}
 					}
 				}
 			}
